@@ -505,6 +505,8 @@ static void mode_cond(vf::Ctx& c)
 	int P = c.rng.range(1, 3), C = c.rng.range(1, 5), per = c.rng.range(1, 200);
 	c.desc(vf::fmt("condition queue: %d producers x %d items, %d consumers", P, per, C));
 	uint64_t seed = c.rng.next();
+	bool poller = c.idx % 7 == 2;
+	if (poller) c.count("cond.cases-with-a-consumer-polling-with-expired-timeouts");
 	Mutex mutex;
 	Condition cond(mutex);
 	std::vector<int> queue;            // protected by mutex
@@ -519,6 +521,9 @@ static void mode_cond(vf::Ctx& c)
 			for (;;) {
 				mutex.lock();
 				while (queue.empty() && !done) {
+					// consumer 0 of every seventh case polls with a time-out that has already expired (deadline - now() reaching 0 in a polling
+					// loop): wait() must still release the mutex while it looks, or the producers can never get in
+					if (poller && q == 0) { cond.wait(r.chance(0.5) ? 0.0 : -0.001); continue; }
 					if (r.chance(0.2)) cond.wait(0.5); else cond.wait();
 				}
 				if (queue.empty() && done) { mutex.unlock(); break; }
